@@ -232,13 +232,22 @@ func readIndex(s *sx) *sx {
 	}
 	if s.head() == "select" && len(s.list) == 3 {
 		a := s.list[1]
-		if a.isAtom() && isHeapArrayName(a.atom) {
-			return nil // lookup by reference, not by index
+		switch {
+		case a.isAtom():
+			if idxArrayAtoms[a.atom] {
+				return s.list[2]
+			}
+		case a.head() == "select" && len(a.list) == 3 && a.list[1].isAtom() && strings.HasPrefix(a.list[1].atom, "E$"):
+			return s.list[2] // element of a slice/array backing store
+		case strings.HasPrefix(a.head(), "f$"):
+			return s.list[2] // array-typed struct field
 		}
-		return s.list[2]
 	}
 	return nil
 }
+
+// idxArrayAtoms: array constants indexed by the index sort (set per query from the declarations).
+var idxArrayAtoms = map[string]bool{}
 
 func isHeapArrayName(a string) bool {
 	for _, p := range []string{"E$", "H$", "C$", "MD$", "MV$", "MC$", "G$", "RS$"} {
